@@ -3,7 +3,8 @@ import BreezyVerif.Model.C43
 /-
 C43 driver.
 
-  up <mode inc|full> <variant A|C followed by optional S, K: renames as found / children first; S = robust symlinks; K = kind change deletes at the new path> <ign> <remote> <tree> <delta>
+  up <mode inc|full> <variant A|C followed by optional S, K: renames as found / children first; S = robust symlinks; K = kind change deletes at the new path; T = deleting a missing .bzrignore / .bzrignore-upload is tolerated> <ign> <remote> <tree> <delta> <bad links>
+     bad links = `,`-joined paths at which creating a symlink raises InvalidURL because `upload_symlink` does not escape (`-` = none)
      ign    = `,`-joined plain names (`-` = none)
      remote = `;`-joined entries, parents first: `<path>|f|<content hex>|<T|F>`, `<path>|l|<target>`, `<path>|d`
               (path = components joined by `/`; `-` = empty directory)
@@ -12,6 +13,9 @@ C43 driver.
               removed `<path>:<k>`, renamed `<old>:<new>:<T|F changed content>`, kind-changed `<old path>:<path>:<k0>:<k1>`,
               added / modified `<path>`;  k = f|d|l
   reply: `<error|~> <remote afterwards, same encoding, sorted>`
+
+  wf <tree>                      -> `T` / `F`: `treeWF` (the hypothesis of the upload theorems on trees)
+  dok <ign> <old tree> <new tree> <delta> -> `T` / `F`: `deltaOK` (the hypothesis of the upload theorems on deltas)
 -/
 namespace BreezyVerif.C43
 
@@ -80,14 +84,16 @@ def parseDelta (s : String) : Option Delta :=
   | _ => none
 
 def handle : List String → String
-  | ["up", mode, v, ign, remote, tree, delta] =>
-    match (if v.toList.all (fun ch => ch == 'A' || ch == 'C' || ch == 'S' || ch == 'K') && v.length > 0
+  | ["up", mode, v, ign, remote, tree, delta, bad] =>
+    match (if v.toList.all (fun ch => ch == 'A' || ch == 'C' || ch == 'S' || ch == 'K' || ch == 'T') && v.length > 0
             && (v.toList.head? == some 'A' || v.toList.head? == some 'C') then
             some ({ renames := if v.toList.head? == some 'C' then .childrenFirst else .asFound,
-                    robustSymlinks := v.toList.contains 'S', kindChangeAtNew := v.toList.contains 'K' } : Cfg)
+                    robustSymlinks := v.toList.contains 'S', kindChangeAtNew := v.toList.contains 'K',
+                    tolerantSpecialDelete := v.toList.contains 'T' } : Cfg)
           else none),
-          (parseTree remote).bind buildFS, parseTree tree, parseDelta delta with
-    | some v, some root, some t, some d =>
+          (parseTree remote).bind buildFS, parseTree tree, parseDelta delta, parseGroup bad parsePath with
+    | some v0, some root, some t, some d, some badLinks =>
+      let v : Cfg := { v0 with badLinks := badLinks }
       let names := splitList ign
       let r := if mode == "inc" then some (uploadInc v names t d root)
                else if mode == "full" then some (uploadFull v names t root) else none
@@ -96,7 +102,15 @@ def handle : List String → String
         let e := match err with | none => "~" | some e => e.toString
         s!"{e} {showFS root'}"
       | none => "bad-op"
-    | _, _, _, _ => "bad-op"
+    | _, _, _, _, _ => "bad-op"
+  | ["wf", tree] =>
+    match parseTree tree with
+    | some t => showBool (treeWF t)
+    | none => "bad-op"
+  | ["dok", ign, old, new, delta] =>
+    match parseTree old, parseTree new, parseDelta delta with
+    | some o, some n, some d => showBool (deltaOK (splitList ign) o n d)
+    | _, _, _ => "bad-op"
   | _ => "bad-op"
 
 end BreezyVerif.C43
